@@ -207,7 +207,9 @@ impl<'a> Engine<'a> {
             RDTG => self.op_rdtg()?,
             SANGW => self.op_sangw()?,
             // Unsupported instruction, do nothing
-            AA => {}
+            AA => {
+                self.value_stack.pop()?;
+            }
             FLIPPT => self.op_flippt()?,
             FLIPRGON => self.op_fliprgon()?,
             FLIPRGOFF => self.op_fliprgoff()?,
